@@ -175,10 +175,11 @@ def streams(rng, tier):
         add("digit-like", "Specifier", rng.choice(gen_spec.OPS) + t)
         add("digit-like", "parse_wheel_filename", "foo-%s-%s-py3-none-any.whl" % (gen.vstr(v), rng.choice(DIGITLIKE) + "x"))
         add("digit-like", "Requirement", "foo==" + t)
-    # known finding D10: the interpreter's int/str digit limit
+    # the interpreter's int/str digit limit (D10, repaired by 71d4b23): only the documented exceptions may come out
     big = "9" * 4301
     for e, t in (("Version", big), ("canonicalize_version", "1." + big), ("Specifier.contains", big + ".0"), ("Version", "1.0+" + big),
-                 ("parse_wheel_filename", "foo-" + big + "-py3-none-any.whl"), ("Requirement", "foo==" + big), ("Version", "9" * 4300)):
+                 ("parse_wheel_filename", "foo-" + big + "-py3-none-any.whl"), ("parse_wheel_filename", "foo-1.0-" + big + "x-py3-none-any.whl"), ("Requirement", "foo==" + big), ("Version", "9" * 4300),
+                 ("Marker", 'python_version >= "%s"' % big), ("SpecifierSet", ">=" + big), ("SpecifierSet.contains", big), ("Specifier", "~=1." + big), ("Version", "1.post" + big), ("Version", big + "!1")):
         add("digit-limit", e, t)
     return out
 
